@@ -936,6 +936,12 @@ class LawRule(sym.Rule):
                 allconds = _Conds(tuple(conds0) + xconds)
                 eqs = [fix(q) for q in eqs0] + [fix(q) for q in path_eqs(_Conds(xconds))]
                 fs = facts(_Conds(tuple((fix(self.resolve(c_, retmap)), v_) for (c_, v_) in conds0) + xconds))
+                # entry contract (the container invariant, C02): size <= capacity, so a container whose
+                # capacity is known to be zero on this path is empty
+                for obj, cs in cells.items():
+                    if 1 in cs and 2 in cs:
+                        if same(atom(('init', cs[1])), L(0), eqs) and not same(atom(('init', cs[2])), L(0), eqs):
+                            eqs.append(atom(('init', cs[2])))
                 # iteration counts of generalised loops are determined by the loop's exit test
                 its = set(a for q in eqs for a in atoms_of(q) if a[0] == 'iter')
                 itmap = {}
